@@ -59,6 +59,11 @@ def configs(tier):
                 add(group='fresh_flags', cls=cls, mode=mode, storage=st, d=2, q=1, T=3 if tier == 'quick' else 4, _cost=400)
     for cls in CLASSES:
         add(group='given_objects', cls=cls, d=2, _cost=20)
+    for cls in ('IncrementalSage', 'IncrementalPFI'):
+        for qc in (1, 2):
+            add(group='override_history', cls=cls, d=2, q=qc, T=3 if tier == 'quick' else 4, _cost=3000)
+    for cls in ('BatchSage', 'IntervalSage'):
+        add(group='override_history_batch', cls=cls, d=1, q=1, _cost=300)
     for cls in ('BatchSage', 'IntervalSage'):
         for nm in ('str', 'int', 'float', 'mixed'):
             for q in (1, 2):
@@ -294,3 +299,48 @@ def _given_objects(env, cfg):
         env.claim('given_imputer_is_used', ex._imputer is imp)
         env.claim('default_imputer_samples_from_the_given_storage', getattr(ex2._imputer, 'storage_object', None) is st,
                   detail=type(st).__name__)
+
+
+def _override_history(env, cfg):
+    """per-call n_inner_samples overrides apply to that call only: any pattern of overridden / plain calls"""
+    cls = CLASSES[cfg['cls']]
+    log = Log()
+    b = build_incremental(env, cls, dict(cfg, m=1, cap=1, storage='sequence', state='sym', imputer='joint', mode='static'), faults=log)
+    ex, names = b['ex'], b['names']
+    d, q0 = len(names), cfg['q']
+    options = [None, 1, 2, 3]
+    for t in range(cfg['T']):
+        k = options[env.choose(len(options), label=('n_inner', t))]
+        x, y = sym_row(env, names, f"x{t}"), env.real(f"y{t}")
+        log.sites.clear()
+        kw = {} if k is None else {'n_inner_samples': k}
+        guarded(env, 'explain_one', ex.explain_one, x, y, **kw)
+        eff = q0 if k is None else k
+        env.claim('model_evaluations_follow_the_call_or_the_constructor_value', log.sites.count('model') == 1 + d * eff,
+                  detail=f"call {t + 1}: override {k}, constructor value {q0}, {log.sites.count('model')} model evaluations")
+        env.claim('constructor_value_kept', ex.n_inner_samples == q0, detail=f"n_inner_samples attribute is {ex.n_inner_samples}")
+
+
+def _override_history_batch(env, cfg):
+    cls = CLASSES[cfg['cls']]
+    names = names_for('str', cfg['d'])
+    log = Log()
+    model, loss = UFModel(env, names, faults=log), UFLoss(env, faults=log)
+    kw = {'n_inner_samples': cfg['q']}
+    if cls is IntervalSage:
+        kw.update(interval_length=1, storage_length=1)
+    ex = guarded(env, 'ctor', cls, model, names, loss, **kw)
+    for t, k in enumerate([None, 3, None, 2, None]):
+        x, y = sym_row(env, names, f"x{t}"), env.real(f"y{t}")
+        if cls is BatchSage:
+            ex._storage._storage_x.clear()
+            ex._storage._storage_y.clear()
+        log.sites.clear()
+        ekw = {'verbose': False}
+        if k is not None:
+            ekw['n_inner_samples'] = k
+        guarded(env, 'explain_one', ex.explain_one, x, y, **ekw)
+        eff = cfg['q'] if k is None else k
+        env.claim('model_evaluations_follow_the_call_or_the_constructor_value', log.sites.count('model') == 1 + cfg['d'] * eff,
+                  detail=f"call {t + 1}: override {k}: {log.sites.count('model')} model evaluations")
+        env.claim('constructor_value_kept', ex.n_inner_samples == cfg['q'])
